@@ -82,6 +82,7 @@ def gen(rng, max_n=8, p_sel=0.3, p_fail=0.06, mixed=True):
     # the whole graph described in an INNER DAG that the executed DAG calls: the spliced nodes ("inner.n3") must keep
     # every attribute they were declared with (priority, is_sequential, resource, tag, activation flag)
     sc["nested"] = rng.random() < 0.2
+    sc["profile"] = rng.random() < 0.2      # TAWAZI_PROFILE_ALL_NODES: a documented option that must not change anything observed here
     if (not sc["nested"]) and all(not (s_["flag"] and s_["flag"][0] == "c") for s_ in specs) and rng.random() < 0.12:
         # the DAG is NOT traced: its node table is handed to the constructor (hand-built ExecNodes), listed in a random
         # order — the scheduler only knows the dependency graph, never the listing order
@@ -128,6 +129,13 @@ def gen(rng, max_n=8, p_sel=0.3, p_fail=0.06, mixed=True):
             # the DAG may have been CALLED before it is reconfigured (anything derived from the old
             # configuration and kept by the instance must not survive the reconfiguration)
             rc["warmup"] = rng.random() < 0.4
+            # the executor object may exist BEFORE the reconfiguration and be called after it: it runs the DAG's nodes as
+            # they are declared when it is called (sequential flags, max_concurrency).  Priorities are left alone in that
+            # case: which table an older executor ranks by is not specified.
+            if rng.random() < 0.3:
+                rc["exec_before"] = True
+                for e_ in rc["nodes"].values():
+                    e_.pop("priority", None)
     return sc
 
 
@@ -404,13 +412,38 @@ def ids(l):
 
 def run_scenario(sc, timeout=40):
     """Build and run one scenario on the real code.  Returns a dict with everything observed."""
+    from tawazi import cfg as _cfg
+    old_profile = _cfg.TAWAZI_PROFILE_ALL_NODES
+    _cfg.TAWAZI_PROFILE_ALL_NODES = bool(sc.get("profile"))
+    try:
+        return _run_scenario(sc, timeout)
+    finally:
+        _cfg.TAWAZI_PROFILE_ALL_NODES = old_profile
+
+
+def _run_scenario(sc, timeout):
     d = build(sc)
     if sc.get("reconf"):
         if sc["reconf"].get("warmup"):
             # one call under the build-time configuration first (outcome irrelevant; under control so that it ends)
             control.run_controlled(lambda: asyncio.run(d()) if sc["is_async"] else d(),
                                    control.Script(rng=random.Random(sc["script"].get("seed", 0) + 1)), timeout=timeout)
+        early_ex = None
+        if sc["reconf"].get("exec_before"):
+            sel0 = sc.get("sel") or {}
+            try:
+                early_ex = d.executor(root_nodes=ids(sel0.get("R")), exclude_nodes=ids(sel0.get("X")), target_nodes=ids(sel0.get("T")))
+            except BaseException as e:  # noqa: BLE001
+                return dict(skipped="executor-creation-raised:" + type(e).__name__)
         apply_reconf(d, sc["reconf"])
+        if early_ex is not None:
+            ex = early_ex
+            graph_nodes = {int(norm_id(x)[1:]) for x in ex.graph.nodes if norm_id(x).startswith("n") and norm_id(x)[1:].isdigit()}
+            real_cp = {norm_id(k): ex.graph.compound_priority[k] for k in list(ex.graph.nodes)}
+            script = control.Script(decisions=sc["script"]["decisions"]) if "decisions" in sc["script"] else \
+                control.Script(rng=random.Random(sc["script"]["seed"]))
+            R, outcome = control.run_controlled(lambda: asyncio.run(ex()) if sc["is_async"] else ex(), script, timeout=timeout)
+            return dict(run=R, outcome=outcome, selected=graph_nodes, real_cp=real_cp, script_trace=script.trace)
     sel = sc.get("sel")
     if sel is None:
         graph_nodes = None
